@@ -326,8 +326,36 @@ func NewTransactionFromBytes(b []byte) (*Transaction, error) {
 	if r.Len() != 0 {
 		return nil, errors.New("additional data after the transaction")
 	}
+	// The hash and the size are taken from the given bytes, so they must be the
+	// encoding this transaction has everywhere else (in a block, in the DB, on
+	// relay): a non-minimal length prefix, a key in uncompressed form or a
+	// boolean other than 0/1 decode fine and are encoded differently.
+	cw := sameBytesWriter{expected: b}
+	w := io.NewBinWriterFromIO(&cw)
+	tx.EncodeBinary(w)
+	if w.Err != nil || cw.differs || len(cw.expected) != 0 {
+		return nil, ErrNonCanonicalEncoding
+	}
 	tx.size = len(b)
 	return tx, nil
+}
+
+// sameBytesWriter checks that the data written to it is exactly the expected
+// one without keeping a copy of it.
+type sameBytesWriter struct {
+	expected []byte
+	differs  bool
+}
+
+// Write implements the [io.Writer] interface.
+func (w *sameBytesWriter) Write(p []byte) (int, error) {
+	if len(p) > len(w.expected) || !bytes.Equal(p, w.expected[:len(p)]) {
+		w.differs = true
+		w.expected = nil
+	} else {
+		w.expected = w.expected[len(p):]
+	}
+	return len(p), nil
 }
 
 // FeePerByte returns NetworkFee of the transaction divided by
@@ -458,6 +486,9 @@ var (
 	ErrNonUniqueSigners   = errors.New("transaction signers should be unique")
 	ErrInvalidAttribute   = errors.New("invalid attribute")
 	ErrEmptyScript        = errors.New("no script")
+	// ErrNonCanonicalEncoding is returned by NewTransactionFromBytes for the
+	// data that is not what the transaction it decodes to is encoded as.
+	ErrNonCanonicalEncoding = errors.New("non-canonical transaction encoding")
 )
 
 // isValid checks whether decoded/unmarshalled transaction has all fields valid.
